@@ -71,6 +71,8 @@ def evaluate(case):
     below = np.unique(np.concatenate([below, pb - np.array([0.9, 0.5, 0.1, 0.01, 1e-4])]))
     below = below[(below >= 15.0) & (below < pb)]
     above = np.linspace(pb, 2.5 * pb, n + 1)
+    # the first psi above the bubble point (a dead band there would keep B_o flat instead of falling)
+    above = np.unique(np.concatenate([above, pb * (1 + 1e-9) * np.ones(1), pb + np.array([1e-4, 0.01, 0.1, 0.5, 0.9])]))
     rs_b = np.array([fns["R_s"](p) for p in below], dtype=float)
     rs_a = np.array([fns["R_s"](p) for p in above], dtype=float)
     if not np.all(rs_a == gor):
